@@ -92,9 +92,42 @@ SCENARIOS = {
 NAMES = sorted(SCENARIOS)
 
 
+CONFLICT_RICH = ['n:red', 'n:blue', 'n:fg_green', 'n:bold', 'n:faint', 'n:underline', 'n:double_underline', 'n:bg_red',
+                 'n:bg_blue', 'n:italic', 'i:31', 'i:34', 'h:rgb(1,2,3)', 'n:orange']
+
+
+def stacked_then_mirror_concat(rng):
+    """Generic directed workload for seams that carry several settings: k settings applied to the end
+    of the left operand from seed-drawn start indices (so that stacking order and application order
+    differ), then a right operand that starts with the same settings, in application order or a
+    permutation of it, is appended."""
+    n = rng.choice([3, 4, 5])
+    k = rng.choice([2, 3, 3, 4, 4])
+    ats = [rng.choice(CONFLICT_RICH) for _ in range(k)]
+    ops_ = [_new('abcde'[:n], None, 0)]
+    for a in ats:
+        ops_.append(_apply(0, [a], rng.randrange(n), None, top=rng.random() < 0.8))
+    order = list(ats)
+    if rng.random() < 0.4:
+        rng.shuffle(order)
+    ops_.append(_new('xy', order, 1))
+    ops_[-1]['star'] = True
+    how = rng.random()
+    if how < 0.5:
+        ops_.append({'op': 'add', 'r': 0, 'o': {'slot': 1}, 'd': 2})
+    elif how < 0.8:
+        ops_.append({'op': 'iadd', 'r': 0, 'o': {'slot': 1}, 'd': 0, 'ip': True})
+    else:
+        ops_.append({'op': 'join', 'xs': [{'slot': 0}, {'slot': 1}, {'slot': 1}], 'cls': S, 'd': 2})
+    return ops_
+
+
 def pick(rng, prop):
     x = rng.random()
     name = rng.choice(NAMES)
-    if x < 1 / 3:
+    gen = stacked_then_mirror_concat(rng)
+    if x < 0.28:
         return copy.deepcopy(SCENARIOS[name])
+    if x < 0.36:
+        return gen
     return None
